@@ -54,7 +54,11 @@ ENVS = [
     "C{X}>>{X}C",
     "C{X}(N)O",
     "C{X}(N)(O)F",
+    "C{X}(N)=O",
 ]
+# environments in which a chirality mark on X can be meaningful (>= 3 distinct neighbours);
+# the quick tier writes @/@@ forms only there, the thorough tier everywhere
+CHIRAL_ENVS = ["C{X}(N)O", "C{X}(N)(O)F", "C{X}(N)=O"]
 ENVS_THOROUGH = ENVS + [
     "N{X}",
     "O{X}",
@@ -283,12 +287,13 @@ def element_item(item):
     mass = str(int(round(_PT.GetAtomicWeight(z)))) if iso else ""
     maps = MAPS_THOROUGH if tier == "thorough" else MAPS
     envs = ENVS_THOROUGH if tier == "thorough" else ENVS
-    forms = [
-        "[{}{}{}{}{}{}]".format(mass, sym, ch, h, q, m)
-        for ch in CHIRALITY for h in HCOUNTS for q in CHARGES for m in maps
-    ]
     acc = _Acc()
-    _run_forms(forms, envs, acc)
+    for ch in CHIRALITY:
+        forms = [
+            "[{}{}{}{}{}{}]".format(mass, sym, ch, h, q, m)
+            for h in HCOUNTS for q in CHARGES for m in maps
+        ]
+        _run_forms(forms, CHIRAL_ENVS if ch and tier != "thorough" else envs, acc)
     return acc.result()
 
 
@@ -423,7 +428,11 @@ def run(tier, seed):
     for k in sorted(all_groups):
         g = all_groups[k]
         g["examples"].sort(key=lambda e: (len(e["s"]), e["s"]))
-        for e in g["examples"][:2]:
+        shown = set()
+        for e in g["examples"]:
+            if e["family"] in shown:
+                continue
+            shown.add(e["family"])
             res.add(Violation(e["family"], e["s"],
                               {"output_molecule": e["out"], "canonical": e.get("got")},
                               {"canonical": e.get("want")}, g["key"], _what(k, g, e)))
@@ -435,7 +444,7 @@ def run(tier, seed):
         "distinct_nontrivial": tot["forms_changed"],
         "rule": "evaluations = strings generated and passed through remove_atom_mapping "
                 "(118 elements x isotope {{none, rounded atomic weight}} x chirality "
-                "{{none,@,@@}} x H {{none,H..H6}} x charge {{0,+-1,+-2,+-3}} x map {} in {} "
+                "{{none,@,@@{}}} x H {{none,H..H6}} x charge {{0,+-1,+-2,+-3}} x map {} in {} "
                 "bonding environments; {} aromatic symbols x H x charge x map in {} ring "
                 "environments; explicit-bond/explicit-H writings rooted at every atom of {} "
                 "molecules; {} distinct corpus reaction strings). Only molecules RDKit parses "
@@ -443,6 +452,8 @@ def run(tier, seed):
                 "distinct_nontrivial = distinct closed-shell bracket forms (resp. syntax "
                 "spellings, corpus reactions) whose text remove_atom_mapping actually "
                 "changed.".format(
+                    "" if tier == "thorough" else " only in the %d environments with >= 3 "
+                    "distinct neighbours" % len(CHIRAL_ENVS),
                     MAPS_THOROUGH if tier == "thorough" else MAPS,
                     len(ENVS_THOROUGH if tier == "thorough" else ENVS),
                     len(AROMATIC), len(AROMATIC_ENVS), len(syn), len(rsmis)),
